@@ -77,10 +77,9 @@ structure FieldView where
 inductive RawView
   | unset                      -- `Unset`: never set(), or set_flat()
   | none
-  | pairs (keys : List Str) (nonText : Bool)
-                               -- dict-like or iterable of pairs: the text keys, in order; is there a key that is not a str?
+  | pairs (keys : List Val)    -- dict-like or iterable of pairs: the keys (text, or int/bool/None), in order
   | notIterable                -- `to_pairs` raises TypeError (int, list of ints …)
-  | badPairs                   -- items that do not unpack into two: ValueError
+  | badPairs                   -- items that do not unpack into two: ValueError (caught since 5e93603)
   deriving Repr, Inhabited
 
 /-- one attribute of a `urlparse` result as `getattr(parsed, part)` yields it -/
@@ -183,16 +182,17 @@ def luhn10Check (number : Int) : Bool :=
 
 /-! ### containers.py helpers -/
 
-def dedup : List Str → List Str
+/-- a Python `set` built from a list of keys: the first of several `==`-equal keys stays -/
+def dedupGo (seen : List Val) : List Val → List Val
   | [] => []
-  | x :: xs => if (dedup xs).contains x then dedup xs else x :: dedup xs
+  | x :: xs => if seen.any (fun s => pyEq x s) then dedupGo seen xs else x :: dedupGo (x :: seen) xs
 
 def insertSorted (x : Str) : List Str → List Str
   | [] => [x]
   | y :: ys => if strLt y x then y :: insertSorted x ys else x :: y :: ys
 
-/-- `sorted(set_of_text)` -/
-def sortStrs (l : List Str) : List Str := (dedup l).foldr insertSorted []
+/-- `sorted(list_of_text)` -/
+def sortOnly (l : List Str) : List Str := l.foldr insertSorted []
 
 /-- `", ".join(l)` -/
 def joinComma : List Str → Str
@@ -200,12 +200,19 @@ def joinComma : List Str → Str
   | [x] => x
   | x :: y :: r => x ++ [',', ' '] ++ joinComma (y :: r)
 
-/-- `given - allowed` as a sorted list -/
-def diffKeys (given allowed : List Str) : List Str :=
-  sortStrs (given.filter (fun k => !allowed.contains k))
+/-- `k in S` for a set `S` of keys -/
+def memKey (k : Val) (s : List Val) : Bool := s.any (fun x => pyEq k x)
 
-def sameKeySet (a b : List Str) : Bool :=
-  a.all (fun k => b.contains k) && b.all (fun k => a.contains k)
+/-- `sorted(str(k) for k in set(a) - set(b))` -/
+def diffKeys (a b : List Val) : List Str :=
+  sortOnly ((dedupGo [] (a.filter (fun k => !memKey k b))).map pyStr)
+
+/-- `set(a) == set(b)` -/
+def sameKeySet (a b : List Val) : Bool :=
+  a.all (fun k => memKey k b) && b.all (fun k => memKey k a)
+
+/-- `element.field_schema_mapping.keys()` as key values -/
+def schemaVals (keys : List Str) : List Val := keys.map Val.str
 
 /-- the `for idx, sibling in enumerate(container.children)` loop of `NotDuplicated.validate`:
     (valid, position) -/
@@ -356,9 +363,6 @@ def verdict (v : V) (e : View) : Except Raise Verdict :=
     match elements with
     | [] => .error .assertionError
     | first :: rest =>
-      -- `fn = self.transform; sample = fn(elements[0])`: MapEqual's own default is a plain
-      -- function in the class body, so `fn` is a bound method and the call is a TypeError
-      if k == .element then .error .typeError else
       let same (el : FieldView) : Bool := match k with
         | .element => pyEq el.value first.value && el.u == first.u
         | .value => pyEq el.value first.value
@@ -401,11 +405,10 @@ def verdict (v : V) (e : View) : Except Raise Verdict :=
     | .unset => pass
     | .none => pass
     | .notIterable => pass
-    | .badPairs => .error .valueError                            -- only TypeError is caught
-    | .pairs given nonText =>
-      let unexpected := diffKeys given e.schemaKeys
-      if nonText then .error .typeError                          -- sorted()/", ".join of a non-str key
-      else if unexpected.isEmpty then pass
+    | .badPairs => pass                                          -- (TypeError, ValueError) caught
+    | .pairs given =>
+      let unexpected := diffKeys given (schemaVals e.schemaKeys)
+      if unexpected.isEmpty then pass
       else fail "unexpected" [("unexpected".toList, .str (joinComma unexpected)),
                               ("n_unexpected".toList, .int unexpected.length)]
   | .setWithAllFields =>
@@ -413,12 +416,11 @@ def verdict (v : V) (e : View) : Except Raise Verdict :=
     | .unset => pass
     | .none => pass
     | .notIterable => pass
-    | .badPairs => .error .valueError
-    | .pairs given nonText =>
-      if nonText then .error .typeError else
+    | .badPairs => pass
+    | .pairs given =>
       let (missing, unexpected) :=
-        if sameKeySet given e.schemaKeys then ([], [])
-        else (diffKeys e.schemaKeys given, diffKeys given e.schemaKeys)
+        if sameKeySet given (schemaVals e.schemaKeys) then ([], [])
+        else (diffKeys (schemaVals e.schemaKeys) given, diffKeys given (schemaVals e.schemaKeys))
       if missing.isEmpty && unexpected.isEmpty then pass
       else
         let message :=
